@@ -86,8 +86,11 @@ def build_tree(rng, root):
     failing access must not be mistaken for 'absent')."""
     classes = []
     r = rng.random()
-    if r < 0.4:
+    if r < 0.3:
         classes = ['stray']
+    elif r < 0.4:
+        # a stray FIFO or UNIX socket: a failing access must not make it "absent"
+        classes = ['stray-special']
     elif r < 0.6:
         # an unreferenced file that has a Manifest name (valid Manifest or not): a
         # candidate the update scan has to open
